@@ -251,3 +251,42 @@ def c16_classify(case_line, impl, model, problem):
     if "did not return" in problem and o["memo"] and model.get("out") in corr.NONTERM:
         return "C16-MEMO-NOCHARGE"
     return None
+
+# ------------------------------------------------------------------ C10
+def flip_opt(line):
+    """the same case on the template variant with -optimize-parser (None when the pair is not
+    meaningful: without GlobalState the optimised template has no store at all)."""
+    t = corr.case_tmpl(line)
+    if t[0]:
+        return None
+    uses_state = any(k in line for k in ("(stc ", "(set ", "(add ", "(push ", "(statege ", "(state "))
+    if uses_state and not t[1]:
+        return None
+    i = line.index("(tmpl ") + 6
+    cid = corr.case_id(line)
+    twin = line[:i] + "1" + line[i + 1:]
+    return twin.replace("(case " + cid + " ", "(case " + cid + "~O ", 1)
+
+def c10_derive(lines):
+    out = []
+    for l in lines:
+        t = flip_opt(l)
+        if t:
+            out.append(t)
+    return out
+
+@prop("C10", replay_known=replay_runtime_known)
+def c10(ctx, rep):
+    run_corr(ctx, rep, [("c10", 400, 10000)], fields=["out", "val", "errs", "gs", "cnt"],
+             ref_fields=["out", "val", "errs"], known_quirks=known_quirks_for("C10"), derive=c10_derive)
+    from .props import same_on
+    pairs = 0
+    for cid, l in rep.case_lines.items():
+        if cid.endswith("~O"):
+            base = cid[:-2]
+            a, b = rep.impl_obs.get(base, {}), rep.impl_obs.get(cid, {})
+            pairs += 1
+            if not same_on(["out", "val", "errs"], a, b):
+                rep.violation("-optimize-parser changes the result (value / error list)",
+                              {"case": rep.case_lines.get(base), "standard": a, "optimized": b}, found=True)
+    rep.cov["optimize_pairs_compared"] = pairs
